@@ -54,6 +54,37 @@ pub struct BudgetCase {
     pub stall: Stall,
     pub history: Vec<Call>,
     pub hash_key: u64,
+    /// where the program's checks live: 0 in the authorizer, 1 in the authority block of a token,
+    /// 2 in an attenuation block, 3 in a second attenuation block (those are evaluated after the
+    /// policies, as the very last units of work of authorize)
+    #[serde(default)]
+    pub placement: u8,
+}
+
+/// the authorizer without its checks, and the token that carries them instead
+fn place(auth: &Authorizer, placement: u8) -> Result<(Authorizer, Option<biscuit_auth::Biscuit>), String> {
+    if placement == 0 {
+        return Ok((auth.clone(), None));
+    }
+    let mut rest = auth.clone();
+    let checks = std::mem::take(&mut rest.checks);
+    let with_checks = Block { checks, ..Default::default() };
+    let empty = Block::default();
+    let key = |seed: u64| crate::keys::KeySpec { alg: Alg::Ed25519, seed }.keypair();
+    let bb = |b: &Block| b.to_builder().map_err(|e| format!("{e:?}"));
+    let authority = if placement == 1 { &with_checks } else { &empty };
+    let mut token = biscuit_auth::builder::BiscuitBuilder::new()
+        .merge(bb(authority)?)
+        .build_with_key_pair(&key(1), biscuit_auth::datalog::SymbolTable::new(), &key(2))
+        .map_err(|e| format!("{e:?}"))?;
+    if placement >= 2 {
+        let first = if placement == 2 { &with_checks } else { &empty };
+        token = token.append_with_keypair(&key(3), bb(first)?).map_err(|e| format!("{e:?}"))?;
+    }
+    if placement >= 3 {
+        token = token.append_with_keypair(&key(4), bb(&with_checks)?).map_err(|e| format!("{e:?}"))?;
+    }
+    Ok((rest, Some(token)))
 }
 
 fn v(s: &str) -> Term {
@@ -184,7 +215,8 @@ pub fn run_history(case: &BudgetCase, stall: Option<(u64, u64)>, with_idle: bool
         stall_at: stall,
     });
     let auth = program_ast(&case.program);
-    let mut a: LibAuthorizer = libeval::build_authorizer(None, &auth, case.limits)?;
+    let (auth, token) = place(&auth, case.placement)?;
+    let mut a: LibAuthorizer = libeval::build_authorizer(token.as_ref(), &auth, case.limits)?;
     let mut idle_total = 0u64;
     let mut out = Vec::new();
     let mut after_restore = false;
@@ -273,8 +305,8 @@ impl BudgetEngine {
         let l = case.limits;
         let ctx = |o: &Obs| {
             format!(
-                "program {:?} limits (facts {}, iterations {}, time {} ns) {} ns per work tick, stall {:?}, history {:?}: call {} -> {} with iterations()={} fact_count()={} work time {} ns{}",
-                case.program, l.max_facts, l.max_iterations, l.max_time_ns, case.per_tick_ns, stall, case.history, o.call, o.result, o.iterations, o.facts, o.w_after,
+                "program {:?} (checks placement {}) limits (facts {}, iterations {}, time {} ns) {} ns per work tick, stall {:?}, history {:?}: call {} -> {} with iterations()={} fact_count()={} work time {} ns{}",
+                case.program, case.placement, l.max_facts, l.max_iterations, l.max_time_ns, case.per_tick_ns, stall, case.history, o.call, o.result, o.iterations, o.facts, o.w_after,
                 if o.after_restore { " (after snapshot-restore)" } else { "" }
             )
         };
@@ -452,6 +484,7 @@ impl Engine for BudgetEngine {
             stall,
             history,
             hash_key: rng.next() >> 8,
+            placement: *rng.pick(&[0u8, 0, 0, 1, 2, 2, 3]),
         }
     }
 
@@ -465,7 +498,8 @@ impl Engine for BudgetEngine {
         w.run(10_000);
         let counts = w.fact_counts.clone();
         let n_rules = auth.rules.len();
-        stats.trace.push(format!("{:?}", case.program));
+        stats.trace.push(format!("{:?} checks-placement={}", case.program, case.placement));
+        stats.bump(&format!("c10.placement.{}", case.placement));
         stats.trace.push(format!("{:?}", case.history));
 
         let stalls: Vec<Option<(u64, u64)>> = match &case.stall {
